@@ -37,9 +37,12 @@ pub enum Regime {
     /// a level near the top of a binade (1023.99 * m) with nothing but a few ulps of noise: windows that are
     /// flat to within rounding, where a difference of two rounded aggregates can come out with the wrong sign
     UlpNoise,
+    /// a level with a relative jitter of 1e-8, 1e-10 or 1e-11 (fixed per stream): dispersion far above
+    /// rounding and far below anything a "relative to the price" threshold would call real
+    Quiet,
 }
 
-pub const BAND_REGIMES: [Regime; 14] = [
+pub const BAND_REGIMES: [Regime; 15] = [
     Regime::Walk,
     Regime::AltExtremes,
     Regime::Spikes,
@@ -54,6 +57,7 @@ pub const BAND_REGIMES: [Regime; 14] = [
     Regime::QuietSpikes,
     Regime::Ticks,
     Regime::UlpNoise,
+    Regime::Quiet,
 ];
 
 impl Regime {
@@ -142,6 +146,13 @@ impl BandGen {
                 let step = r.below(5) as f64 - 2.0;
                 self.cur = (self.cur + step * tick).clamp(lo, hi);
                 self.cur
+            }
+            Regime::Quiet => {
+                if self.i == 1 {
+                    self.dir = [1e-8, 1e-10, 1e-11][r.below(3)];
+                    self.cur = lo * r.log_uniform(1.0, 1000.0);
+                }
+                self.cur * (1.0 + self.dir * (r.below(9) as f64 - 4.0))
             }
             Regime::UlpNoise => {
                 let level = lo * 1023.99;
